@@ -150,7 +150,7 @@ def composite_cases(term, ns, mus):
                         yield f"same-class-raw:{names[i]}={lab}", (lambda fs=fs: ns[term.name](**{n: g() for n, g in zip(names, fs)})), ref
                     yield f"extra-key:{names[i]}={lab}", (lambda fs=fs: {**{n: g() for n, g in zip(names, fs)}, "zz_unknown": 1}), ref
                     m = asmap()
-                    if inputs.jsonable(m):
+                    if inputs.jsonable(m) and same(json.loads(json.dumps(m)), m):  # JSON cannot carry every wire value (int keys)
                         yield f"json:{names[i]}={lab}", (lambda m=m: json.dumps(m)), ref
                         yield f"json-bytes:{names[i]}={lab}", (lambda m=m: json.dumps(m).encode()), ref
                     try:
@@ -320,7 +320,43 @@ def run_special(res):
     if not got.ok or not same(got.val, exp):
         res.violation("C05/unmarshal/P5-same-named-nested-classes/" + ("raises:" + got.excname if not got.ok else "differs"),
                       f"unmarshal(Both, ...) -> {short(got.val if got.ok else got.exc, 200)}; expected {short(exp, 200)}", case)
-    res.samples.append({"special": "P2 same-named classes in two modules, P5 nested definitions"})
+    # P2b: a NewType declared in module B around A's class, B defining its own class of the same name; the alias is
+    # reached twice (container field declared first), so the second consumer is built before the real node
+    cold.clear_all()
+    prelude.mkmod("tlg_c05_na", "import dataclasses\n@dataclasses.dataclass\nclass Node:\n    weight: int\n")
+    nb = prelude.mkmod("tlg_c05_nb", "import dataclasses, typing, tlg_c05_na\n@dataclasses.dataclass\nclass Node:\n    weight: str\n"
+                       "ANode = typing.NewType('ANode', tlg_c05_na.Node)\nAlias = typing.TypeAliasType('Alias', tlg_c05_na.Node)\n"
+                       "@dataclasses.dataclass\nclass Hop:\n    target: ANode\n    via: Alias\n"
+                       "@dataclasses.dataclass\nclass Route:\n    hops: list[Hop]\n    first: ANode\n    own: Node\n    last: Alias\n"
+                       "@dataclasses.dataclass\nclass Hop1:\n    target: ANode\n@dataclasses.dataclass\nclass Edge1:\n    hop: Hop1\n    head: ANode\n"
+                       "@dataclasses.dataclass\nclass Hop2:\n    target: Alias\n@dataclasses.dataclass\nclass Edge2:\n    hop: Hop2\n    head: Alias\n"
+                       "@dataclasses.dataclass\nclass Edge3:\n    head: ANode\n    hop: Hop1\n").__dict__
+    na = nb["tlg_c05_na"]
+    x = {"hops": [{"target": {"weight": "2"}, "via": {"weight": "3"}}], "first": {"weight": "1"}, "own": {"weight": 4}, "last": {"weight": "5"}}
+    exp = nb["Route"](hops=[nb["Hop"](target=na.Node(2), via=na.Node(3))], first=na.Node(1), own=nb["Node"]("4"), last=na.Node(5))
+    got = call(typelib.unmarshal, nb["Route"], x)
+    res.evals += 1
+    res.outcomes.add(h64("P2b", "ok" if got.ok else got.excname))
+    if not got.ok or not same(got.val, exp):
+        res.violation("C05/unmarshal/P2b-newtype-of-a-same-named-class-in-another-module/" + ("raises:" + got.excname if not got.ok else "differs"),
+                      f"unmarshal(Route, ...) -> {short(got.val if got.ok else got.exc, 240)}; expected {short(exp, 240)}", case)
+    m = call(typelib.marshal, exp)
+    res.evals += 1
+    wantm = {"hops": [{"target": {"weight": 2}, "via": {"weight": 3}}], "first": {"weight": 1}, "own": {"weight": "4"}, "last": {"weight": 5}}
+    if not m.ok or not same(m.val, wantm):
+        res.violation("C05/marshal/P2b-newtype-of-a-same-named-class-in-another-module/" + ("raises:" + m.excname if not m.ok else "differs"),
+                      f"marshal(Route(...)) -> {short(m.val if m.ok else m.exc, 240)}; expected {short(wantm, 240)}", case)
+    for ename, hname in (("Edge1", "Hop1"), ("Edge2", "Hop2"), ("Edge3", "Hop1")):
+        cold.clear_all()
+        x = {"head": {"weight": "1"}, "hop": {"target": {"weight": "2"}}}
+        exp = nb[ename](hop=nb[hname](target=na.Node(2)), head=na.Node(1))
+        got = call(typelib.unmarshal, nb[ename], x)
+        res.evals += 1
+        res.outcomes.add(h64("P2b", ename, "ok" if got.ok else got.excname))
+        if not got.ok or not same(got.val, exp):
+            res.violation("C05/unmarshal/P2b-newtype-of-a-same-named-class-in-another-module/" + ("raises:" + got.excname if not got.ok else "differs"),
+                          f"unmarshal({ename}, ...) -> {short(got.val if got.ok else got.exc, 240)}; expected {short(exp, 240)}", case)
+    res.samples.append({"special": "P2 same-named classes in two modules, P2b NewType/alias of the other module's class, P5 nested definitions"})
 
 
 def run_unit(unit, tier, res):
